@@ -54,6 +54,15 @@ type Sched struct {
 	AfterStep  func(step int, task int, site int) bool // false = stop the run (oracle fired)
 	stopped    bool
 	killTimer  *time.Timer
+
+	// Blocked counts how often the running task turned out to be blocked in a
+	// real synchronisation primitive (sync.Mutex, sync.Once, sync.Cond,
+	// sync.WaitGroup, a channel) that a parked task has to release; Rejoined how
+	// often such a task came back to a yield point and was parked again.
+	Blocked  int
+	Rejoined int
+	nBlocked int
+	stackBuf []byte
 }
 
 type Task struct {
@@ -66,6 +75,7 @@ type Task struct {
 	LastSite int
 	goid     uint64
 	parked   bool
+	blocked  bool // blocked in a real synchronisation primitive, not at a yield point
 	Panic    interface{}
 	waitKind int
 	waitArg  int
@@ -92,7 +102,26 @@ var YieldSiteNames []string
 //go:norace
 func Yield(site int) {
 	s := Active
-	if s == nil || s.inSched || s.cur < 0 || s.stopped {
+	if s == nil || s.stopped {
+		return
+	}
+	if s.nBlocked != 0 {
+		// some task is (or was) blocked in a real synchronisation primitive: it
+		// may be the caller, woken up; tasks are told apart by goroutine id for
+		// as long as that lasts
+		g := curGoid()
+		if s.rejoin(g, site) {
+			return
+		}
+		if s.inSched || s.cur < 0 || g != s.tasks[s.cur].goid {
+			return
+		}
+		// the running task stops at every yield point for as long as another
+		// one is blocked: if it has just released that one, the woken task gets
+		// to its own yield point before anybody moves on
+		s.quantum = 1
+	}
+	if s.inSched || s.cur < 0 {
 		return
 	}
 	s.Yields++
@@ -112,9 +141,29 @@ func Yield(site int) {
 	t.LastSite = site
 	s.inSched = true
 	t.parked = true
-	rawWrite(s.ctlW, 'y')
+	rawWrite2(s.ctlW, 'y', t.ID)
 	rawRead(t.r)
 	t.parked = false
+}
+
+// rejoin: if the calling goroutine is a task that the scheduler had found
+// blocked in a synchronisation primitive, it has been woken up (the holder
+// released it) and reached its next yield point: it reports back, parks, and
+// returns true once the scheduler has picked it again.
+//
+//go:norace
+func (s *Sched) rejoin(goid uint64, site int) bool {
+	for _, t := range s.tasks {
+		if t.blocked && t.goid == goid {
+			t.LastSite = site
+			t.parked = true
+			rawWrite2(s.ctlW, 'u', t.ID)
+			rawRead(t.r)
+			t.parked = false
+			return true
+		}
+	}
+	return false
 }
 
 // curGoid reads the current goroutine's id from the first line of its stack
@@ -138,7 +187,16 @@ func curGoid() uint64 {
 //go:norace
 func WaitOn(kind, arg int) {
 	s := Active
-	if s == nil || s.inSched || s.cur < 0 {
+	if s == nil {
+		return
+	}
+	if s.nBlocked != 0 && !s.stopped {
+		g := curGoid()
+		if !s.rejoin(g, -3) && (s.inSched || s.cur < 0 || g != s.tasks[s.cur].goid) {
+			return
+		}
+	}
+	if s.inSched || s.cur < 0 {
 		return
 	}
 	t := s.tasks[s.cur]
@@ -154,7 +212,7 @@ func WaitOn(kind, arg int) {
 		t.LastSite = -3
 		s.inSched = true
 		t.parked = true
-		rawWrite(s.ctlW, 'w')
+		rawWrite2(s.ctlW, 'w', t.ID)
 		rawRead(t.r)
 		t.parked = false
 		t.waitKind = 0
@@ -214,6 +272,58 @@ func rawRead(fd int) byte {
 	}
 }
 
+// rawWrite2 sends one scheduler message (kind, task): two bytes in one write,
+// which a pipe delivers atomically.
+//
+//go:norace
+func rawWrite2(fd int, kind byte, id int) {
+	buf := [2]byte{kind, byte(id)}
+	for {
+		n, _, e := syscall.Syscall(syscall.SYS_WRITE, uintptr(fd), uintptr(unsafe.Pointer(&buf[0])), 2)
+		if e == syscall.EINTR {
+			continue
+		}
+		if e != 0 || n != 2 {
+			fmt.Fprintf(os.Stderr, "simhook: baton write failed: n=%d %v\n", n, e)
+			os.Exit(2)
+		}
+		return
+	}
+}
+
+// rawRead2Timeout waits up to ms milliseconds for one scheduler message.
+//
+//go:norace
+func rawRead2Timeout(fd int, ms int) (kind byte, id int, ok bool) {
+	p := pollFd{fd: int32(fd), events: 1} // POLLIN
+	for {
+		n, _, e := syscall.Syscall(syscall.SYS_POLL, uintptr(unsafe.Pointer(&p)), 1, uintptr(ms))
+		if e == syscall.EINTR {
+			continue
+		}
+		if e != 0 {
+			fmt.Fprintf(os.Stderr, "simhook: poll failed: %v\n", e)
+			os.Exit(2)
+		}
+		if n == 0 {
+			return 0, 0, false
+		}
+		break
+	}
+	var buf [2]byte
+	for {
+		n, _, e := syscall.Syscall(syscall.SYS_READ, uintptr(fd), uintptr(unsafe.Pointer(&buf[0])), 2)
+		if e == syscall.EINTR {
+			continue
+		}
+		if e != 0 || n != 2 {
+			fmt.Fprintf(os.Stderr, "simhook: baton read failed: n=%d %v\n", n, e)
+			os.Exit(2)
+		}
+		return buf[0], int(buf[1]), true
+	}
+}
+
 type pollFd struct {
 	fd      int32
 	events  int16
@@ -259,7 +369,7 @@ func (s *Sched) abandon(running int) {
 		}
 	}
 	for alive > 0 {
-		b, ok := rawReadTimeout(s.ctlR, 120000)
+		b, _, ok := rawRead2Timeout(s.ctlR, 120000)
 		if !ok {
 			fmt.Fprintln(os.Stderr, "simhook: scheduler watchdog: tasks did not finish after the schedule was abandoned")
 			os.Exit(2)
@@ -270,6 +380,179 @@ func (s *Sched) abandon(running int) {
 	}
 	s.inSched = true
 	s.cur = -1
+}
+
+
+const (
+	stepEnded = iota
+	stepBlocked
+	stepStalled
+)
+
+// note books a message of a task that is not the running one: a blocked task
+// that was woken and has parked again ('u'), or that ran to its end ('d').
+//
+//go:norace
+func (s *Sched) note(kind byte, id int) {
+	if id < 0 || id >= len(s.tasks) {
+		return
+	}
+	t := s.tasks[id]
+	if t.blocked && (kind == 'u' || kind == 'd') {
+		t.blocked = false
+		s.nBlocked--
+		if kind == 'u' {
+			s.Rejoined++
+		}
+	}
+}
+
+// waitStep waits for the running task to reach a yield point, a wait or its
+// end. While nothing arrives it looks at the task's goroutine: a goroutine in
+// a blocking wait state of package sync or of a channel operation is blocked
+// (stepBlocked, found within tens of milliseconds); one that is running or
+// runnable is merely slow and is given StallMillis.
+//
+//go:norace
+func (s *Sched) waitStep(ti int) int {
+	t := s.tasks[ti]
+	waited, probe := 0, 20
+	for {
+		k, id, ok := rawRead2Timeout(s.ctlR, probe)
+		if ok {
+			if id == ti && !t.blocked {
+				return stepEnded
+			}
+			s.note(k, id)
+			continue
+		}
+		waited += probe
+		if s.goroutineWaiting(t.goid) {
+			// make sure: a message may have been written just before it blocked
+			if k, id, ok := rawRead2Timeout(s.ctlR, 0); ok {
+				if id == ti {
+					return stepEnded
+				}
+				s.note(k, id)
+				continue
+			}
+			return stepBlocked
+		}
+		if waited >= StallMillis {
+			return stepStalled
+		}
+		if probe < 1000 {
+			probe *= 2
+		}
+	}
+}
+
+// collectWoken waits for every blocked task that is no longer in a blocking
+// wait state to report back from its next yield point (or its end).
+//
+//go:norace
+func (s *Sched) collectWoken() bool {
+	waited := 0
+	for {
+		pending := false
+		for _, t := range s.tasks {
+			if t.blocked && !t.done && !s.goroutineWaiting(t.goid) {
+				pending = true
+				break
+			}
+		}
+		// a woken task may find the lock taken again and go back to sleep, so
+		// the states are looked at again after every short wait
+		ms := 0
+		if pending {
+			ms = 5
+		}
+		k, id, ok := rawRead2Timeout(s.ctlR, ms)
+		if ok {
+			s.note(k, id)
+			continue
+		}
+		if !pending {
+			return true
+		}
+		waited += ms
+		if waited >= StallMillis {
+			return false
+		}
+	}
+}
+
+var waitStates = []string{"sync.Mutex.Lock", "sync.RWMutex.RLock", "sync.RWMutex.Lock", "sync.Cond.Wait", "sync.WaitGroup.Wait", "semacquire", "chan receive", "chan send", "select"}
+
+// goroutineWaiting reports whether the goroutine with that id is in one of the
+// blocking wait states of package sync or of a channel operation, read from
+// the header line of its stack trace ("goroutine 7 [sync.Mutex.Lock]:").
+//
+//go:norace
+func (s *Sched) goroutineWaiting(goid uint64) bool {
+	if s.stackBuf == nil {
+		s.stackBuf = make([]byte, 1<<18)
+	}
+	var n int
+	for {
+		n = runtime.Stack(s.stackBuf, true)
+		if n < len(s.stackBuf) {
+			break
+		}
+		s.stackBuf = make([]byte, 2*len(s.stackBuf))
+	}
+	buf := s.stackBuf[:n]
+	head := "goroutine " + utoa(goid) + " ["
+	for i := 0; i+len(head) < len(buf); {
+		if (i == 0 || buf[i-1] == '\n') && hasPrefixAt(buf, i, head) {
+			j := i + len(head)
+			k := j
+			for k < len(buf) && buf[k] != ']' && buf[k] != ',' && buf[k] != '\n' {
+				k++
+			}
+			state := buf[j:k]
+			for _, w := range waitStates {
+				if len(state) == len(w) && hasPrefixAt(state, 0, w) {
+					return true
+				}
+			}
+			return false
+		}
+		// next line
+		for i < len(buf) && buf[i] != '\n' {
+			i++
+		}
+		i++
+	}
+	return false
+}
+
+//go:norace
+func hasPrefixAt(b []byte, at int, p string) bool {
+	if at+len(p) > len(b) {
+		return false
+	}
+	for i := 0; i < len(p); i++ {
+		if b[at+i] != p[i] {
+			return false
+		}
+	}
+	return true
+}
+
+//go:norace
+func utoa(v uint64) string {
+	var a [20]byte
+	i := len(a)
+	for {
+		i--
+		a[i] = byte('0' + v%10)
+		v /= 10
+		if v == 0 {
+			break
+		}
+	}
+	return string(a[i:])
 }
 
 func NewSched() *Sched {
@@ -309,8 +592,10 @@ func (s *Sched) taskDone(t *Task) {
 		t.Panic = r
 	}
 	t.done = true
-	s.inSched = true
-	rawWrite(s.ctlW, 'd')
+	if s.cur == t.ID && !t.blocked {
+		s.inSched = true
+	}
+	rawWrite2(s.ctlW, 'd', t.ID)
 }
 
 // Run executes all tasks to completion (or until AfterStep stops the run).
@@ -330,12 +615,21 @@ func (s *Sched) Run() {
 	})
 	lastSites := make([]int, len(s.tasks))
 	for {
+		if s.nBlocked > 0 {
+			// a blocked task whose holder has released it is on its way to its
+			// next yield point: wait until it has parked there, so that the set
+			// of runnable tasks does not depend on timing
+			if !s.collectWoken() {
+				s.abandon(-1)
+				break
+			}
+		}
 		var runnable []int
 		alive := 0
 		for i, t := range s.tasks {
 			if !t.done {
 				alive++
-				if t.waitKind == 0 || s.Deadlocked || s.Ready(t.waitKind, t.waitArg) {
+				if !t.blocked && (t.waitKind == 0 || s.Deadlocked || s.Ready(t.waitKind, t.waitArg)) {
 					runnable = append(runnable, i)
 				}
 			}
@@ -345,6 +639,21 @@ func (s *Sched) Run() {
 			break
 		}
 		if len(runnable) == 0 {
+			if s.nBlocked > 0 {
+				// every task that could run is blocked in a synchronisation
+				// primitive: somebody outside the tasks (a goroutine of the code
+				// under test) has to release one of them
+				k, id, ok := rawRead2Timeout(s.ctlR, StallMillis)
+				if !ok {
+					if s.ExitOnStall && OnStallExit != nil {
+						OnStallExit()
+					}
+					s.abandon(-1)
+					break
+				}
+				s.note(k, id)
+				continue
+			}
 			// every live task waits for a condition nobody can make true:
 			// harness trouble; release them so that they unwind
 			s.Deadlocked = true
@@ -361,7 +670,10 @@ func (s *Sched) Run() {
 		} else {
 			ti, q = s.Choose(runnable, lastSites)
 		}
-		if q < 1 {
+		if q < 1 || s.nBlocked > 0 {
+			// while a task is blocked the others advance one yield point at a
+			// time: a task that releases it stops right afterwards, before the
+			// woken task and the releasing one could run side by side
 			q = 1
 		}
 		t := s.tasks[ti]
@@ -373,13 +685,31 @@ func (s *Sched) Run() {
 		s.quantum = q
 		s.inSched = false
 		rawWrite(t.w, 'g')
-		if _, ok := rawReadTimeout(s.ctlR, StallMillis); !ok {
+		switch s.waitStep(ti) {
+		case stepStalled:
 			if s.ExitOnStall && OnStallExit != nil {
 				// tasks that share unsynchronised harness state cannot be left
 				// to run freely: the worker process hands in what it has and ends
 				OnStallExit()
 			}
 			s.abandon(ti)
+		case stepBlocked:
+			// the task sits in a real Lock/Wait/receive that a parked task (or a
+			// goroutine of the code under test) has to end: it stays where it
+			// is and somebody else is scheduled; when it is woken it parks at
+			// its next yield point and becomes runnable again
+			s.inSched = true
+			s.cur = -1
+			t.blocked = true
+			t.LastSite = -4
+			s.nBlocked++
+			s.Blocked++
+			s.Steps++
+			s.SeqHash = Mix(s.SeqHash, uint64(ti), 0xb10c)
+			s.killTimer.Reset(180 * time.Second)
+			continue
+		}
+		if s.Abandoned {
 			break
 		}
 		s.inSched = true
